@@ -196,10 +196,10 @@ theorem parser_of_configured_self {cfg : HostCfg} {d : Bytes} (h : ConfiguredDom
     ∃ parse, cfg.parser = some parse ∧ parse t = some ⟨d, none⟩ := by
   have hm : parseHostHeader d t = some ⟨d, none⟩ := by
     simp [parseHostHeader, (eqIgnoreAsciiCase_iff t d).mpr ht]
-  rcases h with rfl | ⟨ds, _, hp, hd, rfl⟩
+  rcases h with rfl | ⟨ds, hacc, hd, rfl⟩
   · exact ⟨singleParse d, rfl, by simp [singleParse, hm]⟩
   · refine ⟨multiParse ds, rfl, ?_⟩
-    simp [multiParse, firstMatch_eq_of_mem hp hd hm]
+    simp [multiParse, firstMatch_eq_of_mem (pairwiseCI_of_accepted hacc) hd hm]
 
 /-- `/` under a `Host` that is a configured base domain itself is the root -/
 theorem classify_vhost_root {cfg : HostCfg} {d t e : Bytes} (hc : ConfiguredDomain cfg d)
